@@ -104,12 +104,30 @@ type runner struct {
 	logger  *zap.Logger
 	dlogs   *observer.ObservedLogs
 	dlogger *zap.Logger
+	checked *[]string // the message every accepted entry had when the core took its Check decision
 }
+
+// spyCore records the message an entry carries at the moment the core decides on it:
+// cores may decide by message (samplers, filters), so the line must already be there.
+type spyCore struct {
+	zapcore.Core
+	checked *[]string
+}
+
+func (c spyCore) Check(ent zapcore.Entry, ce *zapcore.CheckedEntry) *zapcore.CheckedEntry {
+	if c.Enabled(ent.Level) {
+		*c.checked = append(*c.checked, ent.Message)
+		return ce.AddCore(ent, c)
+	}
+	return ce
+}
+func (c spyCore) With(fs []zapcore.Field) zapcore.Core { return spyCore{c.Core.With(fs), c.checked} }
 
 func newRunner() *runner {
 	c, l := observer.New(zap.DebugLevel)
 	dc, dl := observer.New(zap.ErrorLevel)
-	return &runner{logs: l, logger: zap.New(c), dlogs: dl, dlogger: zap.New(dc)}
+	checked := new([]string)
+	return &runner{logs: l, logger: zap.New(spyCore{c, checked}), dlogs: dl, dlogger: zap.New(spyCore{dc, checked}), checked: checked}
 }
 
 // exec runs the plan against a fresh zapio.Writer; returns a description of the first mismatch.
@@ -124,6 +142,7 @@ func (r *runner) exec(st []step, level zapcore.Level, disabled bool) (msg string
 		lg, logs = r.dlogger, r.dlogs
 	}
 	w := &zapio.Writer{Log: lg, Level: level}
+	*r.checked = (*r.checked)[:0]
 	var scratch []byte
 	for i, s := range st {
 		switch s.kind {
@@ -178,6 +197,15 @@ func (r *runner) exec(st []step, level zapcore.Level, disabled bool) (msg string
 		}
 		if len(got[i].Context) != 0 {
 			return fmt.Sprintf("message %d carries unexpected fields", i)
+		}
+	}
+	if ch := *r.checked; len(ch) != len(want) {
+		return fmt.Sprintf("the core was asked to decide on %d entries %q, the stream has lines %q", len(ch), ch, want)
+	} else {
+		for i := range ch {
+			if ch[i] != want[i] {
+				return fmt.Sprintf("entry %d carried the message %q when the core decided on it (Check), the line is %q", i, ch[i], want[i])
+			}
 		}
 	}
 	return ""
@@ -336,6 +364,56 @@ func main() {
 			calls.Add(int64(len(st)))
 		})
 	}
+	// line-length sweep: one line of every length 1..maxLine followed by a short line, cut in two at every
+	// position (plain cut), and lines around the 64/128/256/512/1024-byte marks cut in three at every pair
+	// of positions near the ends and the marks
+	maxLine := 300
+	if run.Thorough() {
+		maxLine = 1100
+	}
+	par.For(maxLine, func(li int) {
+		L := li + 1
+		r := newRunner()
+		stream := strings.Repeat("s", L) + "\nz\n"
+		nb := len(stream) - 1
+		var e, c int64
+		try := func(cuts []int) {
+			st := plan(stream, cuts, false, 0)
+			e++
+			c += int64(len(st))
+			if msg := r.exec(st, zap.InfoLevel, false); msg != "" {
+				report(stream, st, zap.InfoLevel, false, msg)
+			}
+		}
+		for p := 0; p < nb; p++ {
+			cuts := make([]int, nb)
+			cuts[p] = bCut
+			try(cuts)
+		}
+		near := false
+		for _, m := range []int{64, 128, 256, 512, 1024} {
+			if L >= m-1 && L <= m+2 || L == 2*m-56 {
+				near = true
+			}
+		}
+		if near {
+			var pos []int
+			for p := 0; p < nb; p++ {
+				if p < 3 || p > nb-5 || p%64 >= 62 || p%64 <= 1 || p%64 == 27 {
+					pos = append(pos, p)
+				}
+			}
+			for i, p1 := range pos {
+				for _, p2 := range pos[i+1:] {
+					cuts := make([]int, nb)
+					cuts[p1], cuts[p2] = bCut, bCut
+					try(cuts)
+				}
+			}
+		}
+		evals.Add(e)
+		calls.Add(c)
+	})
 	// special streams: every single cut position x action, and every pair of cut positions
 	par.For(len(special), func(si int) {
 		r := newRunner()
@@ -370,7 +448,8 @@ func main() {
 		evals.Add(e)
 	})
 	sample = append(sample, map[string]any{"special_stream": "é\\n€x split inside the multi-byte runes"})
-	run.Assume = []string{"stream alphabet {a,b,LF} up to the stated length plus listed special streams (multi-byte, invalid UTF-8, NUL, CR, 5000-byte line, a 70000-byte line cut around the 32 KiB / 64 KiB marks)"}
+	run.Assume = []string{"stream alphabet {a,b,LF} up to the stated length plus listed special streams (multi-byte, invalid UTF-8, NUL, CR, 5000-byte line, a 70000-byte line cut around the 32 KiB / 64 KiB marks); a line of every length up to the stated maximum cut in two at every position, and in three around the 64..1024-byte marks",
+		"the logger's core records the message each entry carries when Check decides on it: it must already be the line (cores may decide by message)"}
 	run.Finish(map[string]any{
 		"states":                        len(states),
 		"transitions":                   calls.Load(),
@@ -382,6 +461,7 @@ func main() {
 		"exhaustive":                    true,
 		"streams":                       len(streams),
 		"max_stream_length":             maxLen,
+		"line_length_sweep_max":         maxLine,
 	})
 }
 
